@@ -67,9 +67,27 @@ def setup():
     class _NPwe:
         random = _Random
 
+        @staticmethod
+        def save(file, arr, **k):
+            F = fakefs.fs()
+            f = F.files.setdefault(str(file), fakefs.File(False))
+            F.mutate("np.save", str(file))
+            f.exists, f.size, f.content = True, 128, {"npy": arr}
+
+        @staticmethod
+        def savez(file, *a, **named):
+            F = fakefs.fs()
+            f = F.files.setdefault(str(file), fakefs.File(False))
+            F.mutate("np.savez", str(file))
+            f.exists, f.size, f.content = True, 128, {"npz": dict(named)}
+
         def __getattr__(self, n):
             return getattr(larr.NPL, n)
     we.np = _NPwe()
+    we.open_memmap = _open_memmap
+    we.Parallel = _Par
+    we.delayed = lambda fn: (lambda *a, **k: (fn, a, k))
+    we.cpu_count = lambda: 2
 
 
 # ------------------------------------------------------------------------------------------ cut-out
@@ -238,9 +256,140 @@ def case_chunk(ctx, i_chunk, length, offset):
                 ctx.oblige("chunk_waveform_is_the_source_at_the_spike_window", core.eq(got, exp), detail={"k": k, "t": t, "i_chunk": i_chunk})
 
 
+# ------------------------------------------------------------------------------------------ file-level outputs
+UNWRITTEN = "unwritten"
+
+
+def _open_memmap(filename, mode="r+", dtype=None, shape=None, **kw):
+    """numpy.lib.format.open_memmap on the fake file system: 'w+' creates an array whose cells are marked unwritten"""
+    F = fakefs.fs()
+    if mode == "w+":
+        a = np.empty(tuple(int(x) for x in shape), dtype=object)
+        a[...] = UNWRITTEN
+        f = F.files.setdefault(str(filename), fakefs.File(False))
+        F.mutate("open_memmap", str(filename))
+        f.exists, f.size, f.content = True, 128, {"npy": a.view(arrays.SymArray)}
+        return f.content["npy"]
+    f = F.get(str(filename))
+    if f is None or not bool(f.exists):
+        raise FileNotFoundError(str(filename))
+    return f.content["npy"]
+
+
+class _Par:
+    def __init__(self, n_jobs=None, **k):
+        pass
+
+    def __call__(self, jobs):
+        return [fn(*a, **kw) for fn, a, kw in list(jobs)]
+
+
+def case_cbin_outputs(ctx, n, max_wf, chunk, length, offset):
+    """the whole extract_wfs_cbin on a small flat recording: table, traces, channel map and templates describe the same
+    waveforms row by row"""
+    import ibldsp.waveform_extraction as we
+    import ibldsp.utils as u
+    import spikeglx
+    nsites = 3
+    nc = nsites + 1
+    ns = ctx.int("ns", chunk + 1, 3 * chunk)
+    T = core._as_real(ns) / 30000
+    sites = [(0, i % 2, i // 2) for i in range(nsites)]
+    txt = sglx.imec_meta_text("3B2", sites, gains=[(500, 250)] * nsites, ns=sglx.S(T), fs_hz="30000", file_size=sglx.S(ns * nc * 2))
+    F = fakefs.install(fakefs.FakeFS())
+    F.add("/d/x.imec0.ap.meta", True, len(txt), [{"pos": 0, "text": txt}])
+    F.add("/d/x.imec0.ap.bin", True, ns * nc * 2, np2env.raw_array(ns, nc))
+    F.mkdir("/out")
+    samples = [ctx.int(f"s{i}", 0, 3 * chunk) for i in range(n)]
+    for i in range(n - 1):
+        ctx.assume(samples[i] <= samples[i + 1])
+    clusters = [ctx.int(f"u{i}", 0, 1) for i in range(n)]
+    chans = [ctx.int(f"c{i}", 0, nsites - 1) for i in range(n)]
+    sr0 = spikeglx.Reader(FakePath("/d/x.imec0.ap.bin"))
+    geom = {k: v for k, v in sr0.geometry.items()}
+    order = [int(v) for v in sr0.raw_channel_order]
+    s2v = sr0.sample2volts
+    # a neighbourhood radius that leaves NaN padding: 3 sites, 2 neighbours at most for the outer ones
+    saved_mci = we.make_channel_index
+    we.make_channel_index = lambda g, **k: u.make_channel_index(g, radius=35.0)
+    try:
+        ctx.call("extract_wfs_cbin", we.extract_wfs_cbin, FakePath("/d/x.imec0.ap.bin"), FakePath("/out"), arrays.mk(list(samples), tag=np.dtype(np.int64)),
+                 arrays.mk(list(clusters), tag=np.dtype(np.int64)), arrays.mk(list(chans), tag=np.dtype(np.int64)), h=geom, max_wf=max_wf, trough_offset=offset,
+                 spike_length_samples=length, chunksize_samples=chunk, n_jobs=1, preprocess_steps=[], seed=None)
+    finally:
+        we.make_channel_index = saved_mci
+    nbr = u.make_channel_index(np.c_[geom["x"], geom["y"]], radius=35.0)
+    nn = nbr.shape[1]
+    need = {"traces": "/out/waveforms.traces.npy", "templates": "/out/waveforms.templates.npy", "table": "/out/waveforms.table.pqt", "channels": "/out/waveforms.channels.npz"}
+    if not ctx.oblige("all_four_output_files_written", all(bool(F.exists(p)) for p in need.values()), detail={"present": [k for k, p in need.items() if bool(F.exists(p))]}):
+        return
+    traces = F.get(need["traces"]).content["npy"]
+    templates = F.get(need["templates"]).content["npy"]
+    table = F.get(need["table"]).content["parquet"]
+    chmap = F.get(need["channels"]).content["npz"]["channels"]
+    cl = [int(ctx.concretize(core._it(c))) if isinstance(c, core.Sym) else int(c) for c in clusters]
+    valid = [bool(and_(samples[i] > offset, samples[i] < ns - (length - offset))) for i in range(n)]
+    units = sorted(set(cl))
+    nwf = sum(min(max_wf, sum(1 for i in range(n) if cl[i] == u_ and valid[i])) for u_ in units)
+    ok = (len(table) == nwf and tuple(traces.shape) == (nwf, nn, length) and tuple(np.shape(chmap)) == (nwf, nn) and tuple(np.shape(templates)) == (len(units), nn, length))
+    if not ctx.oblige("output_shapes_agree", ok, detail={"table_rows": len(table), "traces": str(traces.shape), "channels": str(np.shape(chmap)), "templates": str(np.shape(templates)), "expected_waveforms": nwf}):
+        return
+    S, C, P, W = (table[k].to_numpy() for k in ("sample", "cluster", "peak_channel", "waveform_index"))
+    IW = table["index_within_clusters"].to_numpy()
+    rows_of_unit = {u_: [] for u_ in units}
+    for r in range(nwf):
+        ctx.oblige("table_row_r_describes_trace_r", core.eq(W[r], r), detail={"row": r, "waveform_index": W[r]})
+        pk = int(ctx.concretize(core._it(P[r]))) if isinstance(P[r], core.Sym) else int(P[r])
+        cr = int(ctx.concretize(core._it(C[r]))) if isinstance(C[r], core.Sym) else int(C[r])
+        rows_of_unit.setdefault(cr, []).append(r)
+        ctx.oblige("channel_map_row_is_the_neighbourhood_of_the_rows_peak", [int(v) for v in chmap[r]] == [int(v) for v in nbr[pk]], detail={"row": r, "peak": pk})
+        ctx.oblige("index_within_cluster_counts_from_zero", core.eq(IW[r], len(rows_of_unit[cr]) - 1), detail={"row": r, "got": IW[r]})
+        for k in range(nn):
+            ch = int(nbr[pk, k])
+            for t in (0, offset, length - 1):
+                got = traces[r, k, t]
+                if isinstance(got, str):
+                    ctx.oblige("every_trace_cell_is_written", False, detail={"row": r, "k": k, "t": t})
+                elif ch == nsites:
+                    ctx.oblige("trace_padding_is_nan", arrays.s_isnan(got), detail={"row": r, "k": k})
+                else:
+                    exp = np2env.raw_elem(S[r] - offset + t, order[ch]) * float(s2v[order[ch]])
+                    ctx.oblige("trace_r_is_the_source_at_the_rows_spike_window", core.eq(got, exp), detail={"row": r, "k": k, "t": t})
+    ctx.oblige("table_is_sorted_by_cluster", all(rows_of_unit[u_] == list(range(rows_of_unit[u_][0], rows_of_unit[u_][-1] + 1)) for u_ in rows_of_unit if rows_of_unit[u_]), detail={"rows_of_unit": {str(k): v for k, v in rows_of_unit.items()}})
+    # templates: NaN-aware median over the unit's saved waveforms (units without any waveform stay NaN)
+    for iu, u_ in enumerate(units):
+        rows = rows_of_unit.get(u_, [])
+        for k in range(nn):
+            for t in (0, length - 1):
+                got = templates[iu, k, t]
+                vals = [traces[r, k, t] for r in rows]
+                vals = [v for v in vals if not isinstance(v, str) and not bool(arrays.s_isnan(v))]
+                if not vals:
+                    ctx.oblige("template_is_nan_without_data", arrays.s_isnan(got), detail={"unit": u_, "k": k})
+                    continue
+                if bool(arrays.s_isnan(got)):
+                    ctx.oblige("template_is_the_nanmedian_of_the_units_traces", False, detail={"unit": u_, "k": k, "t": t, "got": "nan", "n_values": len(vals)})
+                    continue
+                if len(vals) == 1:
+                    exp = vals[0]
+                elif len(vals) == 2:
+                    exp = (vals[0] + vals[1]) / 2
+                else:
+                    lo = [core.all_([core.or_(got >= v) for v in vals])]
+                    exp = None
+                if exp is not None:
+                    ctx.oblige("template_is_the_nanmedian_of_the_units_traces", core.eq(got, exp), detail={"unit": u_, "k": k, "t": t})
+                else:
+                    # median of 3+: at least half of the values on either side, and it is one of them (odd) or a mid-point
+                    le = sum(arrays._num(v <= got) for v in vals)
+                    ge = sum(arrays._num(v >= got) for v in vals)
+                    ctx.oblige("template_is_the_nanmedian_of_the_units_traces", and_(le * 2 >= len(vals), ge * 2 >= len(vals)), detail={"unit": u_, "k": k, "t": t})
+
+
 def cases(tier):
     b = bounds(tier)
     cs = []
+    cs.append(Case("cbin_outputs_n3_maxwf2", "case_cbin_outputs", {"n": 3, "max_wf": 2, "chunk": 12, "length": 4, "offset": 1}, timeout_s=3400, max_paths=900000))
     for g in GEOMS:
         cs.append(Case(f"cutout_{g}", "case_cutout", {"geom": g, "ns": 9, "length": 4, "offset": 1, "nwf": 2, "add_nan": True}, timeout_s=2400, max_paths=100000))
     cs.append(Case("cutout_np1_6_prepadded", "case_cutout", {"geom": "np1_6", "ns": 8, "length": 3, "offset": 2, "nwf": 1, "add_nan": False}, timeout_s=2400))
